@@ -64,13 +64,16 @@ def build(tier, seed):
     # (b) Longer scripts with remove replaced by the pop_front model (verified equivalent to the
     # real remove by the c18_remove_equiv_* instances of this same check).
     model_snd = [
+        (3, 2, 3, 8, "R2 F R1 F"), (4, 2, 4, 8, "R1 F R2"),
         (2, 2, 0, 4, "F R2 F"), (2, 2, 0, 3, "F R1 F R1 F"), (2, 2, 0, 4, "F R1 F R1 F R1 F"),
         (3, 2, 1, 8, "F R2 F R1 F"), (3, 2, 0, 5, "F R1 F R2 F"), (3, 2, 3, 6, "R2 F F R1 F"),
         (2, 3, 0, 7, "F R1 F R1 F"), (2, 1, 0, 2, "F R2 F R1 F"), (3, 2, 0, 8, "F F R4 R3 F"),
         (2, 2, 0, 5, "F R* F"), (2, 2, 0, 1, "F R1 F R1 F"), (2, 2, 0, 0, "F R1 F F"),
         (3, 2, 0, 6, "F R3 F R1 F"), (3, 2, 0, 4, "F R2 F R1 F"),
     ]
-    model_rcv = [(2, 2, 1, 2, "A2 A2 E A1 E"), (3, 2, 1, 0, "A2 A1 R1 E A2 E")]
+    model_rcv = [(2, 2, 1, 2, "A2 A2 E A1 E"), (3, 2, 1, 0, "A2 A1 R1 E A2 E"),
+                 # the VecDeque is physically wrapped (front removed, tail refilled past the allocation end) when empty() runs
+                 (3, 2, 3, 0, "R2 A2 A2 E"), (4, 2, 4, 0, "R1 A2 E"), (4, 2, 4, 0, "R3 A2 A1 A2 E")]
     if tier == "thorough":
         real_snd += [(3, 1, 0, 3, "F R*"), (4, 2, 1, 8, "F R*"), (2, 2, 0, 1, "F R*"), (1, 3, 0, 6, "F R1 F"),
                      (3, 2, 3, 8, "R* F"), (4, 2, 4, 8, "R4 F")]
